@@ -144,7 +144,7 @@ def run_dataflow(case, backend, via_hypotest=False):
             k = len(log['draws'])
             n = int(shape[0])
             log['draws'].append([k, self.parsid, list(shape)])
-            return tb.astensor([[float(k * 1000000 + self.parsid * 1000 + i), 0.0] for i in range(n)])
+            return tb.astensor([[float(self.parsid * 1000 + i), 0.0] for i in range(n)])   # tag: which pdf, which toy (not the draw order)
 
     class FakeModel:
         config = real.config
@@ -203,8 +203,8 @@ def ref_dataflow(case):
     ts, n, poi = case['test_stat'], case['ntoys'], case['poi']
     sig_id = int(round(poi * 4))
     bkg_id = 4 if ts == 'q0' else 0
-    sb = [ts_value(ts, poi, 0 * 1000000 + sig_id * 1000 + i) for i in range(n)]
-    b = [ts_value(ts, poi, 1 * 1000000 + bkg_id * 1000 + i) for i in range(n)]
+    sb = [ts_value(ts, poi, sig_id * 1000 + i) for i in range(n)]
+    b = [ts_value(ts, poi, bkg_id * 1000 + i) for i in range(n)]
     tobs = ts_value(ts, poi, OBS_TAG)
     pv = []
     for tv in case['tobs']:
@@ -214,12 +214,12 @@ def ref_dataflow(case):
     return dict(sb=sb, b=b, teststat=tobs, pvalues=pv)
 
 
-HEADER_B = '''From Coq Require Import ZArith QArith Qcanon String List.
+HEADER_B = '''From Coq Require Import ZArith QArith Qround Qcanon String List.
 Require Import PV.Num PV.Run PV.Empirical.
 Import ListNotations.
 Definition fitq (p : Qc) : Z := Qfloor (p * mkq 4 1)%Qc.
 Definition samplerq (k : nat) (parsid : Z) (n : nat) : list Z :=
-  map (fun i => (Z.of_nat k * 1000000 + parsid * 1000 + Z.of_nat i)%Z) (seq 0 n).
+  map (fun i => (parsid * 1000 + Z.of_nat i)%Z) (seq 0 n).
 Definition tscode (ts : test_stat) : Z := match ts with TQtilde => 1 | TQ => 2 | TQ0 => 3 end%Z.
 Definition tsq (ts : test_stat) (poi : Qc) (tag : Z) : Qc := (mkq ((tag * 7 + 3) mod 11) 4 + poi * mkq (tscode ts) 1)%Qc.
 Definition flow (ts : test_stat) (n : nat) (poi : Qc) (tobs : list (option Qc)) :=
@@ -425,7 +425,7 @@ def run(ctx):
     def report(sig, what, replay, nofail=False):
         ctx.violation(sig, what, replay, nofail=nofail)
         found[0] = True
-    backends = BACKENDS if not ctx.quick else ['numpy', BACKENDS[1 + (ctx.seed + rng.randrange(3)) % 3]]
+    backends = BACKENDS if not ctx.quick else ['numpy', BACKENDS[1 + ctx.seed % 3]]
     sigs = set()
     stats = dict(backends=backends, empirical_cases=0, pvalue_evals=0, expected_value_evals=0, ties=0, out_of_range=0,
                  dataflow_cases=0, sampling_columns=0, counting_cases=0)
@@ -498,7 +498,8 @@ def run(ctx):
     for ts in ('qtilde', 'q', 'q0'):
         for _ in range(ctx.n(3, 20)):
             n = rng.choice([1, 2, 5, 8, 13])
-            poi = rng.choice([0.0, 0.25, 0.5, 1.0, 1.5, 2.0, 3.75])
+            # the tested value differs from the background hypothesis' POI so that the two pdfs are distinguishable
+            poi = rng.choice([0.25, 0.5, 1.0, 1.5, 2.0, 3.75] if ts != 'q0' else [0.0, 0.25, 0.5, 1.5, 2.0])
             dcases.append(dict(test_stat=ts, ntoys=n, poi=poi, tobs=[None] + [rng.randrange(0, 14) / 4.0 + poi * TS_CODE[ts] * rng.choice([0, 1]) for _ in range(3)]))
     dex = ['flow %s %d %s %s' % (TS_COQ[c['test_stat']], c['ntoys'], core.q(c['poi']),
                                  core.clist(c['tobs'], lambda t: 'None' if t is None else '(Some %s)' % core.q(t))) for c in dcases]
@@ -522,6 +523,9 @@ def run(ctx):
                 report('toy-hypotheses:' + c['test_stat'], 'conditional fits were run at POI %r (arguments intact: %r); signal toys need the fit at the tested value %r, background toys at %r'
                        % ([f['poi'] for f in lg['fits']], [all(v for k, v in f.items() if k != 'poi') for f in lg['fits']], want_fits[0], want_fits[1]),
                        dict(rep, impl=lg['fits'], expected=want_fits, theorem='C14_toy_hypotheses'))
+            if len(lg['draws']) != 2 or any(d[2] != [c['ntoys']] for d in lg['draws']) or len(lg['pdf_pars']) != 2:
+                report('toy-draws:' + c['test_stat'], 'expected one draw of %d toys from each of the two pdfs, saw draws %r from pdfs at %r' % (c['ntoys'], lg['draws'], lg['pdf_pars']),
+                       dict(rep, impl=dict(draws=lg['draws'], pdf_pars=lg['pdf_pars']), theorem='C14_toy_hypotheses'))
             if [core.frac(x) for x in im['sb']] != ref['sb'] or [core.frac(x) for x in im['b']] != ref['b']:
                 which = 'signal' if [core.frac(x) for x in im['sb']] != ref['sb'] else 'background'
                 report('toy-hypotheses:%s:%s' % (c['test_stat'], which),
